@@ -477,6 +477,13 @@ pub struct Case {
     /// afterwards: (callers, rounds, loader delay in us) of the gated-callers scenario
     #[serde(default)]
     gated: Option<(u8, u16, u16)>,
+    /// afterwards: a guard is held on another thread for that many milliseconds across one hot_reload call
+    #[serde(default)]
+    long_guard_ms: u16,
+    /// afterwards: (guards taken one after the other by ONE thread while nothing is in flight, index of the one
+    /// that is kept, kept guard is mapped) - the others are dropped, then a reload is attempted
+    #[serde(default)]
+    nested: Option<(u8, u8, bool)>,
 }
 
 struct Shared {
@@ -813,6 +820,8 @@ impl Prop for C07 {
          30..2000 reloads driven by one writer thread: write version i, notify, hot_reload until applied; in a third of the cases 2..5 threads first race for the first load of one asset (rendezvous inside the loader, each reading different bytes) before any hot_reload call; \
          in a third of the cases a compound of a SECOND hot-reloaded cache reads the handle with a guard held over 1..4 yields and is reloaded continuously, so that this read runs on the other cache's reloader thread while the first cache's reloader rewrites the value). Oracle: \
          in a fifth of the cases 6..14 threads then call hot_reload under the read side of a gate while notifications keep coming and the loader takes 100..700 us: whenever an observer holds the write side (no thread inside hot_reload) value and id must not move; \
+         in a tenth of the cases (a fifth in the thorough tier) a guard is then held on another thread for 20 ms .. 1.3 s (2.6 s in the thorough tier) across one hot_reload call for a change notified before the call: value and id stay behind the guard and when the call returns the reload id (read without a lock) has moved; \
+         in a quarter of the cases one thread then takes 2..5 guards of one handle while nothing is in flight, keeps one (mapped or not), drops the others, and a reload is triggered from another thread: value and id stay behind the kept guard; \
          after the first-load race every racer's (value, reload id) equals what the handle reads afterwards and the id is ReloadId::NEVER; every read sees all words equal with a valid checksum; value and reload id are constant while a guard lives; \
          versions never go back; after the k-th true from ReloadWatcher::reloaded the value read is at least version k; two samples taken while started == finished hot_reload counters are equal; when hot_reload returns with the id advanced the writer reads the new version. \
          non-trivial = some reader saw at least two different versions (its reads overlapped reloads); distinct = different canonical JSON"
@@ -822,7 +831,7 @@ impl Prop for C07 {
     fn assumptions(&self) -> Vec<String> {
         vec![
             "interleavings are sampled by the OS scheduler (many reloads x many readers), not enumerated".into(),
-            "readers never hold two guards of one handle and the writer never holds a guard while calling hot_reload (documented preconditions)".into(),
+            "the racing readers never hold two guards of one handle while reloads are in flight (a second read behind a waiting writer may block for good with either lock implementation) and the writer never holds a guard while calling hot_reload; several guards on one thread are only taken while nothing is in flight".into(),
         ]
     }
 
@@ -854,8 +863,10 @@ impl Prop for C07 {
             prop_oneof![2 => Just(0u8), 1 => 2u8..6],
             prop_oneof![2 => Just(0u8), 1 => 1u8..5],
             prop_oneof![4 => Just(None), 1 => (6u8..15, 60u16..200, 100u16..700).prop_map(Some)],
+            if tier == Tier::Quick { prop_oneof![20 => Just(0u16), 1 => 20u16..400, 1 => 1100u16..1300].boxed() } else { prop_oneof![12 => Just(0u16), 1 => 20u16..400, 1 => 1100u16..1400, 1 => 2100u16..2600].boxed() },
+            prop_oneof![3 => Just(None), 1 => (2u8..6, any::<u8>(), any::<bool>()).prop_map(Some)],
         )
-            .prop_map(|(size, readers, reloads, first_load_race, cross, gated)| to_case(&Case { size, readers, reloads, first_load_race, cross, gated }))
+            .prop_map(|(size, readers, reloads, first_load_race, cross, gated, long_guard_ms, nested)| to_case(&Case { size, readers, reloads, first_load_race, cross, gated, long_guard_ms, nested }))
             .boxed()
     }
 
@@ -874,6 +885,18 @@ impl Prop for C07 {
                 Err((sig, what)) => out.fail(sig, what),
             }
         }
+        if c.long_guard_ms > 0 && !out.failed() {
+            match guard_held_across_call(c.long_guard_ms) {
+                None => out.label(if c.long_guard_ms >= 1000 { "guard-held-over-a-second-across-a-call" } else { "guard-held-across-a-call" }),
+                Some((sig, what)) => out.fail(sig, what),
+            }
+        }
+        if let (Some((n, keep, mapped)), false) = (c.nested, out.failed()) {
+            match nested_guards(n, keep, mapped) {
+                None => out.label("several-guards-on-one-thread"),
+                Some((sig, what)) => out.fail(sig, what),
+            }
+        }
         out.label(format!("size:{}", ["64B", "4KiB", "64KiB"][c.size.min(2) as usize]));
         for s in &c.readers {
             out.label(match s {
@@ -890,14 +913,151 @@ impl Prop for C07 {
     }
 
     fn required_labels(&self) -> Vec<&'static str> {
-        vec!["read-overlapped-reloads", "held-guard", "copied", "watcher", "bracket", "first-load-race", "read-on-other-cache-reloader-thread", "gated-callers"]
+        vec!["read-overlapped-reloads", "held-guard", "copied", "watcher", "bracket", "first-load-race", "read-on-other-cache-reloader-thread", "gated-callers", "guard-held-over-a-second-across-a-call", "several-guards-on-one-thread"]
     }
+}
+
+/// One thread holds a read guard for `ms` milliseconds (the delay only shapes the schedule) while another calls
+/// `hot_reload` for a change that was notified before the call: the call needs the write lock of the entry, so it
+/// cannot be over while the guard lives, and when it returns the reload is done (the reload id, read without any
+/// lock, has moved). Judged on orderings only.
+pub fn guard_held_across_call(ms: u16) -> Option<(String, String)> {
+    let src = MemSource::new(true);
+    src.tree().put("big", "w", b"0".to_vec(), Variant::Buffer);
+    let cache = AssetCache::with_source(src.handle());
+    let h = cache.load::<W8>("big").expect("load big");
+    cache.hot_reload();
+    let id0 = h.last_reload_id();
+    let guard_taken = AtomicBool::new(false);
+    let returned = AtomicBool::new(false);
+    let mut problem = None;
+    std::thread::scope(|s| {
+        let holder = s.spawn(|| {
+            let g = h.read();
+            let v0 = validate(g.words());
+            guard_taken.store(true, SeqCst);
+            // (busy, not asleep: a case in which every thread sleeps looks like a deadlock to the supervisor)
+            let t = std::time::Instant::now();
+            while t.elapsed() < std::time::Duration::from_millis(ms as u64) {
+                std::hint::spin_loop();
+            }
+            let returned_under_guard = returned.load(SeqCst);
+            let v1 = validate(g.words());
+            let id1 = h.last_reload_id();
+            drop(g);
+            (returned_under_guard, v0, v1, id1)
+        });
+        super::common::spin_until(|| guard_taken.load(SeqCst));
+        src.tree().put("big", "w", b"1".to_vec(), Variant::Buffer);
+        src.send(&OwnedEntry::File("big".into(), "w".into()));
+        cache.hot_reload();
+        let id_at_return = h.last_reload_id();
+        returned.store(true, SeqCst);
+        let (returned_under_guard, v0, v1, id1) = holder.join().expect("holder");
+        if v0 != v1 || id1 != id0 {
+            problem = Some(("torn-or-unpinned-read".to_string(), format!("a guard held for {ms} ms across a hot_reload call saw its value go from {v0:?} to {v1:?} and the reload id from {id0:?} to {id1:?}")));
+        } else if id_at_return == id0 {
+            problem = Some((
+                "returned-before-reload-finished".to_string(),
+                format!("a change of the asset was notified, then hot_reload was called while another thread held a read guard on it for {ms} ms: when the call returned the reload id still was {id0:?} (guard still alive at that moment: {returned_under_guard}), i.e. hot_reload returned before the reload it triggered was finished"),
+            ));
+        }
+    });
+    if problem.is_none() {
+        // and the value is rewritten only now that the next call runs? no: it was rewritten by that call
+        let v = validate(h.read().words());
+        if v != Ok(1) {
+            problem = Some(("returned-before-reload-finished".to_string(), format!("after the hot_reload call and the release of the guard the value is {v:?}, expected version 1")));
+        }
+    }
+    problem
+}
+
+/// One thread takes `n` read guards of one handle, one after the other, while nothing is in flight (no writer can be
+/// waiting, so none of these reads blocks), keeps the `keep`-th (mapped or not) and drops the others; then a change
+/// is notified and another thread calls `hot_reload`. While the kept guard lives, value and reload id stay and the
+/// call is not over; afterwards the new version is there.
+pub fn nested_guards(n: u8, keep: u8, mapped: bool) -> Option<(String, String)> {
+    let src = MemSource::new(true);
+    src.tree().put("big", "w", b"0".to_vec(), Variant::Buffer);
+    let cache = AssetCache::with_source(src.handle());
+    let h = cache.load::<W8>("big").expect("load big");
+    cache.hot_reload();
+    let id0 = h.last_reload_id();
+    let n = n.clamp(2, 5) as usize;
+    let keep = keep as usize % n;
+    enum G<'a> {
+        Plain(AssetReadGuard<'a, W8>),
+        Mapped(AssetReadGuard<'a, [u64]>),
+    }
+    impl std::ops::Deref for G<'_> {
+        type Target = [u64];
+        fn deref(&self) -> &[u64] {
+            match self {
+                G::Plain(g) => g.words(),
+                G::Mapped(g) => g,
+            }
+        }
+    }
+    let mut guards: Vec<Option<G<'_>>> = Vec::new();
+    for i in 0..n {
+        let g = h.read();
+        // the kept guard is mapped or not as asked, the others alternate
+        let map_it = if i == keep { mapped } else { i % 2 == 0 };
+        guards.push(Some(if map_it { G::Mapped(AssetReadGuard::map(g, |t| t.words())) } else { G::Plain(g) }));
+    }
+    // drop all but one, the first ones first
+    for (i, g) in guards.iter_mut().enumerate() {
+        if i != keep {
+            *g = None;
+        }
+    }
+    let kept = guards[keep].take().expect("kept guard");
+    let v0 = validate(&kept);
+    src.tree().put("big", "w", b"1".to_vec(), Variant::Buffer);
+    src.send(&OwnedEntry::File("big".into(), "w".into()));
+    let finished = AtomicBool::new(false);
+    let mut problem = None;
+    std::thread::scope(|s| {
+        s.spawn(|| {
+            cache.hot_reload();
+            finished.store(true, SeqCst);
+        });
+        // give the call every chance to go through (schedule shaping only)
+        for k in 0..400 {
+            if finished.load(SeqCst) {
+                break;
+            }
+            if k < 200 {
+                std::thread::yield_now();
+            } else {
+                std::thread::sleep(std::time::Duration::from_micros(250));
+            }
+        }
+        let over = finished.load(SeqCst);
+        let v1 = validate(&kept);
+        let id1 = h.last_reload_id();
+        if v1 != v0 || id1 != id0 {
+            problem = Some((
+                "torn-or-unpinned-read".to_string(),
+                format!("one thread took {n} read guards of one handle one after the other, dropped all but guard #{keep} (mapped: {mapped}); a reload was then triggered from another thread: behind the guard that is still alive the value went from {v0:?} to {v1:?} and the reload id from {id0:?} to {id1:?} (hot_reload call over: {over})"),
+            ));
+        }
+        drop(kept);
+    });
+    if problem.is_none() {
+        let v = validate(h.read().words());
+        if v != Ok(1) || h.last_reload_id() == id0 {
+            problem = Some(("returned-before-reload-finished".to_string(), format!("after the kept guard was released and hot_reload returned, the value is {v:?} (expected version 1) and the reload id {:?}", h.last_reload_id())));
+        }
+    }
+    problem
 }
 
 /// A polling-reader race reused by C06: `ReloadWatcher::reloaded(); read()` against a stream of reloads,
 /// with a guard-holding reader widening the window between publication and installation.
 pub fn watcher_race(reloads: u16, size: u8) -> Option<(String, String)> {
-    let c = Case { size, readers: vec![Style::Watcher, Style::Held { yields: 3 }, Style::Watcher, Style::Held { yields: 1 }], reloads, first_load_race: 0, cross: 0, gated: None };
+    let c = Case { size, readers: vec![Style::Watcher, Style::Held { yields: 3 }, Style::Watcher, Style::Held { yields: 1 }], reloads, first_load_race: 0, cross: 0, gated: None, long_guard_ms: 0, nested: None };
     let mut out = Outcome::new();
     match size {
         0 => run_sized::<W8>(&c, &mut out),
